@@ -86,22 +86,28 @@ static void do_cert(char **w) {
 }
 
 /* ------------------------------------------------------------------ request */
-static blob_t issue_req(char **w) {
+/* the subject's key is handed over as a public-only object (no private scalar), the signing key as a separate key-pair object:
+   whatever the writer signs with must be the signing key */
+static blob_t issue_req2(char **w, int signkey) {
 	blob_t r = { NULL, 0 };
 	int ver = atoi(w[0]); buf_t subject = hex2buf(w[1]), attrs = hex2buf(w[3]); int key = atoi(w[2]);
-	size_t len = 0; uint8_t *q;
-	if (key >= 1 && key <= NKEYS
-		&& x509_req_sign_to_der(ver, subject.p, subject.n, &keys[key], attrs.p, attrs.n, OID_sm2sign_with_sm3,
-			&keys[key], SM2_DEFAULT_ID, SM2_DEFAULT_ID_LENGTH, NULL, &len) == 1) {
-		r.p = malloc(len); q = r.p;
-		if (x509_req_sign_to_der(ver, subject.p, subject.n, &keys[key], attrs.p, attrs.n, OID_sm2sign_with_sm3,
-			&keys[key], SM2_DEFAULT_ID, SM2_DEFAULT_ID_LENGTH, &q, &r.n) != 1 || r.n != len) { free(r.p); r.p = NULL; r.n = 0; }
+	size_t len = 0; uint8_t *q; SM2_KEY subj;
+	if (key >= 1 && key <= NKEYS && signkey >= 1 && signkey <= NKEYS) {
+		memset(&subj, 0, sizeof subj); subj.public_key = keys[key].public_key;
+		if (x509_req_sign_to_der(ver, subject.p, subject.n, &subj, attrs.p, attrs.n, OID_sm2sign_with_sm3,
+			&keys[signkey], SM2_DEFAULT_ID, SM2_DEFAULT_ID_LENGTH, NULL, &len) == 1) {
+			r.p = malloc(len); q = r.p;
+			if (x509_req_sign_to_der(ver, subject.p, subject.n, &subj, attrs.p, attrs.n, OID_sm2sign_with_sm3,
+				&keys[signkey], SM2_DEFAULT_ID, SM2_DEFAULT_ID_LENGTH, &q, &r.n) != 1 || r.n != len) { free(r.p); r.p = NULL; r.n = 0; }
+		}
 	}
 	free(subject.p); free(attrs.p);
 	return r;
 }
+static blob_t issue_req(char **w) { return issue_req2(w, atoi(w[2])); }
+static int req_signkey = 0;      /* 0: the subject's own key pair signs */
 static void do_req(char **w) {
-	blob_t c = issue_req(w);
+	blob_t c = req_signkey ? issue_req2(w, req_signkey) : issue_req(w);
 	int ver, alg; const uint8_t *subject, *attrs, *sig; size_t sjl, al, sigl; SM2_KEY pk;
 	if (!c.p) { printf("ERR issue"); return; }
 	if (x509_req_get_details(c.p, c.n, &ver, &subject, &sjl, &pk, &attrs, &al, &alg, &sig, &sigl) != 1) { printf("ERR parse"); free(c.p); return; }
@@ -972,6 +978,32 @@ static void do_names(const char *tab) {
 	printf("ERR table");
 }
 
+
+/* ---- sigtrail <cert|req|crl> <n> <fill>: the issued object re-wrapped with n octets after the signature value inside the BIT STRING
+   (n = 0: the same object again, as a control).  The signature value is one DER SEQUENCE { r, s }: anything after it is refused. */
+static void do_sigtrail(const char *kind, int n, int fill) {
+	uint8_t name[128]; size_t namelen = 0; uint8_t serial[4] = { 5, 5, 5, 5 }; uint8_t obj[2048], sig2[512], re[2600]; uint8_t *q = obj, *p; size_t ol = 0, rl = 0, len = 0;
+	const uint8_t *cp, *d, *tbs, *alg, *sg; size_t cl, dl, tl, al, sl; int r0, r1; blob_t b;
+	x509_name_set(name, &namelen, sizeof name, "CN", NULL, NULL, "VERIF", NULL, "trail");
+	if (n < 0 || n > 200) { printf("ERR n"); return; }
+	if (!strcmp(kind, "cert")) { if (x509_cert_sign_to_der(X509_version_v3, serial, 4, OID_sm2sign_with_sm3, name, namelen, 1699990000, 1700090000, name, namelen, &keys[1], NULL, 0, NULL, 0, NULL, 0, &keys[1], SM2_DEFAULT_ID, SM2_DEFAULT_ID_LENGTH, &q, &ol) != 1) { printf("ERR issue"); return; } }
+	else if (!strcmp(kind, "req")) { if (x509_req_sign_to_der(X509_version_v1, name, namelen, &keys[1], name, 0, OID_sm2sign_with_sm3, &keys[1], SM2_DEFAULT_ID, SM2_DEFAULT_ID_LENGTH, &q, &ol) != 1) { printf("ERR issue"); return; } }
+	else if (!strcmp(kind, "crl")) { buf_t iss = { name, namelen }, none = { NULL, 0 }; blob_t rv = { NULL, 0 }; blob_t c = issue_crl_raw(X509_version_v2, iss, 1699990000, 1700090000, rv, none, 1);
+		if (!c.p || c.n > sizeof obj) { printf("ERR issue"); free(c.p); return; } memcpy(obj, c.p, c.n); ol = c.n; free(c.p); }
+	else { printf("ERR kind"); return; }
+	cp = obj; cl = ol;
+	if (asn1_sequence_from_der(&d, &dl, &cp, &cl) != 1 || cl || asn1_any_from_der(&tbs, &tl, &d, &dl) != 1 || asn1_any_from_der(&alg, &al, &d, &dl) != 1
+		|| asn1_bit_octets_from_der(&sg, &sl, &d, &dl) != 1 || dl || sl + (size_t)n > sizeof sig2) { printf("ERR split"); return; }
+	memcpy(sig2, sg, sl); memset(sig2 + sl, fill, (size_t)n);
+	asn1_bit_octets_to_der(sig2, sl + (size_t)n, NULL, &len); len += tl + al;
+	p = re; asn1_sequence_header_to_der(len, &p, &rl); memcpy(p, tbs, tl); p += tl; memcpy(p, alg, al); p += al; rl += tl + al; asn1_bit_octets_to_der(sig2, sl + (size_t)n, &p, &rl);
+	b.p = obj; b.n = ol;
+	if (!strcmp(kind, "cert")) { r0 = verify_cert(&b, 1, 0); b.p = re; b.n = rl; r1 = verify_cert(&b, 1, 0); }
+	else if (!strcmp(kind, "req")) { r0 = x509_req_verify(obj, ol, SM2_DEFAULT_ID, SM2_DEFAULT_ID_LENGTH); r1 = x509_req_verify(re, rl, SM2_DEFAULT_ID, SM2_DEFAULT_ID_LENGTH); }
+	else { r0 = verify_crl(&b, name, namelen, 1, 0); b.p = re; b.n = rl; r1 = verify_crl(&b, name, namelen, 1, 0); }
+	printf("issued=%d rewrapped=%d same-bytes=%d", r0 == 1, r1 == 1, rl == ol && !memcmp(re, obj, ol));
+}
+
 /* ------------------------------------------------------------------ single-bit modifications */
 static void do_flipall(size_t nw, char **w) {
 	const char *kind = w[1]; size_t step = strtoul(w[2], NULL, 10), off = strtoul(w[3], NULL, 10), i; int b;
@@ -1005,6 +1037,7 @@ static void handle(size_t nw, char **w) {
 	if (!strcmp(w[0], "keys")) { int i; for (i = 1; i <= NKEYS; i++) { uint8_t xy[64]; sm2_z256_point_to_bytes(&keys[i].public_key, xy); if (i > 1) printf(" "); puthex(xy, 64); } }
 	else if (!strcmp(w[0], "cert") && nw == 12) do_cert(w + 1);
 	else if (!strcmp(w[0], "req") && nw == 5) do_req(w + 1);
+	else if (!strcmp(w[0], "reqx") && nw == 6) { req_signkey = atoi(w[5]); do_req(w + 1); req_signkey = 0; }
 	else if (!strcmp(w[0], "crl") && nw == 8) do_crl(w + 1);
 	else if (!strcmp(w[0], "crlfind") && nw == 3) { int ok; blob_t rev = build_revoked(w[1], &ok); if (ok) crlfind_on(rev, w[2]); else printf("ERR build"); free(rev.p); }
 	else if (!strcmp(w[0], "crlfindraw") && nw == 3) { buf_t raw = hex2buf(w[1]); blob_t rev = { raw.p, raw.n }; crlfind_on(rev, w[2]); free(raw.p); }
@@ -1018,6 +1051,7 @@ static void handle(size_t nw, char **w) {
 	else if (!strcmp(w[0], "payload") && nw == 3) do_payload(w[1], atoi(w[2]));
 	else if (!strcmp(w[0], "pemrt") && nw == 2) do_pemrt(w[1]);
 	else if (!strcmp(w[0], "printall") && nw == 2) do_printall(w[1]);
+	else if (!strcmp(w[0], "sigtrail") && nw == 4) do_sigtrail(w[1], atoi(w[2]), atoi(w[3]));
 	else if (!strcmp(w[0], "names") && nw == 2) do_names(w[1]);
 	else if (!strcmp(w[0], "gnames") && nw == 3) do_gnames(w[1], atoi(w[2]));
 	else if (!strcmp(w[0], "crlchk") && nw == 6) do_crlchk(w);
